@@ -407,7 +407,7 @@ func genVolume(r *vh.Rand) in {
 	cur := uint64(0)
 	curKnown := true
 	if r.Chance(1, 2) {
-		s := structIn{Kind: r.Pick([]string{"mbr-type", "mbr-type", "mbr-role", "mbr-guid"}), Size: q(int64(pick64(r, []int64{446, 440, 100, 447})), "")}
+		s := structIn{Kind: r.Pick([]string{"mbr-type", "mbr-type", "mbr-role", "mbr-guid"}), Size: q(int64(pick64(r, []int64{446, 446, 440, 440, 100, 1, 447})), "")}
 		if r.Chance(1, 4) {
 			s.Off = q(0, "")
 		}
@@ -420,18 +420,18 @@ func genVolume(r *vh.Rand) in {
 	for k := 0; k < n; k++ {
 		s := structIn{Kind: r.Pick([]string{"bare", "bare", "part", "part", "part-nofs", "data"})}
 		s.Size = smallQty(r)
-		if r.Chance(1, 30) {
+		if r.Chance(1, 50) {
 			s.Size = nil
 		}
-		if r.Chance(1, 40) {
+		if r.Chance(1, 60) {
 			s.Kind = "mbr-role" // misplaced mbr
 		}
-		if r.Chance(1, 5) { // min-size
+		if r.Chance(1, 3) { // min-size
 			b := bytesOf(s.Size)
-			switch r.Intn(4) {
-			case 0:
+			switch r.Intn(10) {
+			case 0, 1:
 				s.Min = s.Size
-			case 1:
+			case 2:
 				s.Min = q(int64(b+uint64(r.Range(1, 100))), "")
 			default:
 				if b > 1 {
@@ -450,11 +450,13 @@ func genVolume(r *vh.Rand) in {
 			case 0, 1, 2:
 				off = start + uint64(r.Intn(4))<<20
 			case 3:
-				if start > 4096 {
+				if start > 4096 && r.Bool() {
 					off = start - uint64(r.Range(1, 4096)) // overlap by a little
 				}
 			case 4:
-				off = uint64(r.Intn(int(start>>9)+1)) << 9 // somewhere before: reordering or overlap
+				if r.Bool() {
+					off = uint64(r.Intn(int(start>>9)+1)) << 9 // somewhere before: reordering or overlap
+				}
 			case 5:
 				off = start + uint64(r.Intn(100))
 			}
@@ -485,7 +487,7 @@ func genVolume(r *vh.Rand) in {
 		}
 		v.Structs = append(v.Structs, s)
 	}
-	if r.Chance(1, 4) && len(v.Structs) > 1 { // shuffle the yaml order of structures that all have explicit offsets
+	if r.Chance(1, 3) && len(v.Structs) > 1 { // shuffle the yaml order of structures that all have explicit offsets
 		p := r.Perm(len(v.Structs))
 		allExpl := true
 		for _, s := range v.Structs {
